@@ -437,6 +437,10 @@ def rule_index(ctx):
 
 
 def run(ctx):
+    from ..report import SubCtx
+    from . import c10
+    sub_c10 = SubCtx(ctx, 'C13.rng', "random patterns denote their sequence only if a routine's random stream depends on its own seed alone, as decided for C10")
+    c10.rule_rng(sub_c10)
     from . import c15
     rule_index(ctx)
     c15.rule_order(ctx, rid='C13.ops', families=[f for f in c15.FAMILIES if f[0].startswith('sc3.seq.pattern')], least=5)
